@@ -4,10 +4,10 @@
            first; seed > 0 marks a key that is the SHA-256 of a real PeerId, the harness fills the
            limbs in); key 0 is the local key; operations name keys by index.
    trace = 1 :: per operation (see enc_res) ++ final dump of all non-empty buckets. *)
-From Coq Require Import List NArith Bool Arith.
+From Coq Require Import List NArith ZArith Bool Arith.
 From V.common Require Import Wire.
 From V.gen Require Consts.
-From V.C14 Require Import Model.
+From V.C14 Require Import Model AddrModel.
 Import ListNotations.
 Open Scope N_scope.
 
@@ -49,13 +49,19 @@ Definition enc_conn (c : conn) : N :=
   match c with NotConnected => 0 | Connected => 1 | CanConnect => 2 | CannotConnect => 3 end.
 
 Inductive gop :=
-| GOp (real : bool) (o : op)
+| GOp (real : bool) (o : rop)
 | GClosest (t : key) (k : nat)
-| GOrder (t : key).
+| GOrder (t : key)
+| GAddrs (t : key) (obs : list addr).   (* KademliaPeer::addresses() of the entry of t; obs = observed *)
 
 Definition p_kidx (keys : list (N * key)) : parser (N * key) :=
   let* i := pNat in
   match nth_error keys i with Some e => pret e | None => pfail end.
+
+(* the address lists of the short operation forms: addresses 1, 3, 5, ... (number 0, 1, 2, ...
+   without the /p2p suffix), at most six *)
+Definition addrs_old (n : N) : list addr :=
+  map (fun i => 2 * N.of_nat i + 1) (seq 0 (Nat.min (N.to_nat n) 6)).
 
 Definition p_gop (keys : list (N * key)) : parser gop :=
   let* tag := pN in
@@ -63,13 +69,22 @@ Definition p_gop (keys : list (N * key)) : parser gop :=
   let real := negb (fst e =? 0) in
   let k := snd e in
   match tag with
-  | 0 => pret (GOp real (OEntry k))
-  | 1 => let* a := pBool in let* c := pN in pret (GOp real (OInsert k a (dec_conn c)))
-  | 2 => let* a := pN in let* c := pN in pret (GOp real (OAdd k (negb (a =? 0)) (dec_conn c)))
-  | 3 => let* d := pBool in pret (GOp real (OConnected k d))
-  | 4 => let* a := pN in pret (GOp real (ODialFailure k (negb (a =? 0))))
+  | 0 => pret (GOp real (REntry k))
+  | 1 => let* a := pBool in let* c := pN in
+         pret (GOp real (RInsert k (if a then [1] else []) (dec_conn c) []))
+  | 2 => let* a := pN in let* c := pN in pret (GOp real (RAdd k (addrs_old a) (dec_conn c) []))
+  | 3 => let* d := pBool in pret (GOp real (RConnected k (if d then Some 1 else None) []))
+  | 4 => let* a := pN in pret (GOp real (RDialFailure k (addrs_old a) []))
   | 5 => let* n := pNat in pret (GClosest k n)
   | 6 => pret (GOrder k)
+  | 7 => pret (GOp real (RDisconnected k))
+  | 8 => let* obs := plist pN in pret (GAddrs k obs)
+  | 11 => let* l := plist pN in let* c := pN in let* v := plist pN in
+          pret (GOp real (RInsert k l (dec_conn c) v))
+  | 12 => let* l := plist pN in let* c := pN in let* v := plist pN in
+          pret (GOp real (RAdd k l (dec_conn c) v))
+  | 13 => let* d := pN in let* v := plist pN in pret (GOp real (RConnected k (dec_opt d) v))
+  | 14 => let* l := plist pN in let* v := plist pN in pret (GOp real (RDialFailure k l v))
   | _ => pfail
   end.
 
@@ -110,7 +125,7 @@ Definition bucket_eqb := list_eqb node_eqb.
    on_dial_failure is not returned by the code: code 9. *)
 Definition shown_code (real : bool) (o : op) (code : nat) : N :=
   match o with
-  | OConnected _ _ | ODialFailure _ _ => 9
+  | OConnected _ _ | ODialFailure _ _ | ODisconnected _ => 9
   | OAdd _ _ _ => if real then 9 else N.of_nat code
   | _ => N.of_nat code
   end.
@@ -139,16 +154,73 @@ Fixpoint nonempty_from (i : nat) (t : table) : list (nat * list node) :=
   end.
 Definition dump (keys : list (list N)) (t : table) : list N := enc_changed keys (nonempty_from 0 t).
 
-Fixpoint run_trace (keys : list (list N)) (local : key) (t : table) (ops : list gop) : list N :=
+(* stream A dumps every node with its address store, sorted by address number; scores are
+   shifted by 2^31 *)
+Definition SCORE_OFF : Z := 2147483648%Z.
+Definition enc_score (z : Z) : N := Z.to_N (z + SCORE_OFF)%Z.
+Definition dec_score (x : N) : Z := (Z.of_N x - SCORE_OFF)%Z.
+Definition enc_store (st : store) : list N :=
+  enc_list (fun az : addr * Z => [fst az; enc_score (snd az)]) (sort_by (fun az : addr * Z => fst az) st).
+Definition enc_rnode (keys : list (list N)) (ns : node * store) : list N :=
+  enc_node keys (fst ns) ++ enc_store (snd ns).
+Definition enc_rbucket (keys : list (list N)) (b : list (node * store)) : list N :=
+  enc_list (enc_rnode keys) b.
+Definition enc_rchanged (keys : list (list N)) (l : list (nat * list (node * store))) : list N :=
+  enc_list (fun ib : nat * list (node * store) => N.of_nat (fst ib) :: enc_rbucket keys (snd ib)) l.
+
+Definition store_eqb (a b : store) : bool :=
+  list_eqb (fun x y : addr * Z => (fst x =? fst y) && (snd x =? snd y)%Z)
+           (sort_by (fun az : addr * Z => fst az) a) (sort_by (fun az : addr * Z => fst az) b).
+
+Definition rbucket (s : rstate) (i : nat) : list (node * store) :=
+  combine (nth i (r_table s) []) (nth i (r_stores s) []).
+Definition rbucket_eqb (a b : list (node * store)) : bool :=
+  list_eqb (fun x y : node * store => node_eqb (fst x) (fst y) && store_eqb (snd x) (snd y)) a b.
+
+Definition rchanged_at (oi : option nat) (a b : rstate) : list (nat * list (node * store)) :=
+  match oi with
+  | Some i => if rbucket_eqb (rbucket a i) (rbucket b i) then [] else [(i, rbucket b i)]
+  | None => []
+  end.
+
+Fixpoint rnonempty_from (i : nat) (t : table) (ss : stores) : list (nat * list (node * store)) :=
+  match t with
+  | [] => []
+  | b :: t' => (match b with [] => [] | _ => [(i, combine b (hd [] ss))] end) ++ rnonempty_from (S i) t' (tl ss)
+  end.
+Definition rdump (keys : list (list N)) (s : rstate) : list N :=
+  enc_rchanged keys (rnonempty_from 0 (r_table s) (r_stores s)).
+
+(* the store of the entry of k, if it is Occupied *)
+Definition entry_store (local : key) (s : rstate) (k : key) : option store :=
+  match ilog2 (kxor local k) with
+  | None => None
+  | Some i =>
+      match split_first (fun ns : node * store => has_key k (fst ns)) (rbucket s i) with
+      | Some (_, ns, _) => Some (snd ns)
+      | None => None
+      end
+  end.
+
+Fixpoint run_trace (keys : list (list N)) (local : key) (s : rstate) (ops : list gop) : list N :=
   match ops with
-  | [] => dump keys t
+  | [] => rdump keys s
   | GOp real o :: r =>
-      let '(t', (oi, code)) := step local K t o in
-      shown_code real o code :: enc_changed keys (changed_at oi t t') ++ run_trace keys local t' r
+      let '(s', (oi, code), bad) := rstep CAP local K s o in
+      (if bad then [77] else []) ++
+      shown_code real (abs_op o) code :: enc_rchanged keys (rchanged_at oi s s') ++ run_trace keys local s' r
   | GClosest tgt k :: r =>
-      enc_list (fun n => [kid keys (n_key n)]) (closest local t tgt k) ++ run_trace keys local t r
+      enc_list (fun n => [kid keys (n_key n)]) (closest local (r_table s) tgt k) ++ run_trace keys local s r
   | GOrder tgt :: r =>
-      enc_list (fun i => [N.of_nat i]) (bucket_order (kxor local tgt)) ++ run_trace keys local t r
+      enc_list (fun i => [N.of_nat i]) (bucket_order (kxor local tgt)) ++ run_trace keys local s r
+  | GAddrs tgt obs :: r =>
+      (* 0 = no Occupied entry; otherwise 1 and the reported addresses: the observed ones when they
+         are a valid answer, the model's own otherwise *)
+      match entry_store local s tgt with
+      | None => [0]
+      | Some st => 1 :: enc_list (fun a => [a])
+                         (if reported_ok REPORT st obs then obs else map fst (peer_addresses st))
+      end ++ run_trace keys local s r
   end.
 
 (* ---- glue cases: the Kademlia event loop around the table ----
@@ -195,7 +267,9 @@ Definition decode_kcase (l : list N) : option kcase :=
         | [] => pfail
         | (_, loc) :: _ =>
             let* steps := plist (p_kstep keys) in
-            pret (mkKCase k (map snd keys) loc steps)
+            (* k >= 100: routing-table update mode Manual (the harness then records no update
+               operations), replication factor k - 100 *)
+            pret (mkKCase (Nat.modulo k 100) (map snd keys) loc steps)
         end) l.
 
 Definition enc_peers (pkeys : list (list N)) (ps : list key) : list N :=
@@ -232,7 +306,7 @@ Definition run_case (l : list N) : list N :=
         end
     | _ =>
         match decode_case l with
-        | Some c => 1 :: run_trace (map (pack LIMBS) (c_keys c)) (c_local c) (empty_table KBITS) (c_ops c)
+        | Some c => 1 :: run_trace (map (pack LIMBS) (c_keys c)) (c_local c) (rempty KBITS) (c_ops c)
         | None => [0]
         end
     end
@@ -342,26 +416,53 @@ Definition closest_ok_class (t : table) (tgt : key) (k : nat) (res : list key) :
   Nat.eqb (length res)
           (Nat.min k (length (filter n_addr (concat t)) + length (filter n_addr (nth 0 t [])))).
 
-Fixpoint steps_ok (lenient : bool) (keys : list key) (local : key) (t : table) (ops : list gop)
-  : parser bool :=
+Definition p_store : parser store :=
+  plist (let* a := pN in let* z := pN in pret (a, dec_score z)).
+Definition p_rnode (keys : list key) : parser (node * store) :=
+  let* n := p_node keys in let* st := p_store in pret (n, st).
+Definition p_rchanged (keys : list key) : parser (list (nat * list (node * store))) :=
+  plist (let* i := pNat in let* b := plist (p_rnode keys) in pret (i, b)).
+
+(* "has a known address" is "the address store is not empty" *)
+Definition flags_ok (l : list (nat * list (node * store))) : bool :=
+  forallb (fun ib : nat * list (node * store) =>
+             forallb (fun ns : node * store => Bool.eqb (n_addr (fst ns)) (nonempty (snd ns))) (snd ib)) l.
+Definition drop_stores (l : list (nat * list (node * store))) : list (nat * list node) :=
+  map (fun ib : nat * list (node * store) => (fst ib, map fst (snd ib))) l.
+
+(* g = the peers that are connected by ground truth (Model.gt_step on the observed tables): each of
+   them must be stored, in the bucket of its distance, after every operation *)
+Fixpoint steps_ok (lenient : bool) (keys : list key) (local : key) (t : table) (g : list key)
+         (ops : list gop) : parser bool :=
   match ops with
   | [] =>
-      let* d := p_changed keys in
-      pret (list_eqb (fun a b : nat * list node => Nat.eqb (fst a) (fst b) && bucket_eqb (snd a) (snd b))
-                     d (nonempty_from 0 t))
-  | GOp _ o :: r =>
+      let* d := p_rchanged keys in
+      pret (flags_ok d &&
+            list_eqb (fun a b : nat * list node => Nat.eqb (fst a) (fst b) && bucket_eqb (snd a) (snd b))
+                     (drop_stores d) (nonempty_from 0 t))
+  | GOp _ ro :: r =>
+      let o := abs_op ro in
       let* code := pN in
-      let* ch := p_changed keys in
-      if table_op_ok local t o code ch then steps_ok lenient keys local (apply_changes t ch) r
+      let* chr := p_rchanged keys in
+      let ch := drop_stores chr in
+      let t' := apply_changes t ch in
+      let g' := gt_step local t t' (N.to_nat code) g o in
+      if flags_ok chr && table_op_ok local t o code ch && forallb (stored_in local t') g'
+      then steps_ok lenient keys local t' g' r
       else pret false
   | GClosest tgt k :: r =>
       let* ids := plist pN in
       let res := map (key_of_id keys) ids in
       if closest_ok t tgt k res || (lenient && in_class local t tgt && closest_ok_class t tgt k res)
-      then steps_ok lenient keys local t r else pret false
+      then steps_ok lenient keys local t g r else pret false
   | GOrder _ :: r =>
       (* the visiting order is internal: it is diffed against the model, not judged *)
-      let* _ := plist pN in steps_ok lenient keys local t r
+      let* _ := plist pN in steps_ok lenient keys local t g r
+  | GAddrs _ _ :: r =>
+      (* the reported addresses are diffed against the model (validated there), not judged *)
+      let* f := pN in
+      if f =? 0 then steps_ok lenient keys local t g r
+      else let* _ := plist pN in steps_ok lenient keys local t g r
   end.
 
 (* ---- glue cases ---- *)
@@ -404,8 +505,32 @@ Fixpoint p_replies (keys : list key) (ops : list kgop) : parser (list (key * lis
   | _ :: r => p_replies keys r
   end.
 
+(* ground truth along a step: the Connected claims of its operations (connection established;
+   add / update while a PeerContext exists), minus the peers disconnect_peer ran for afterwards.
+   ps = the PeerContext set, followed through the operations as Model.kstep does *)
+Fixpoint kclaims (local : key) (ps : list key) (g claims : list key) (ops : list kgop)
+  : list key * list key * list key :=
+  match ops with
+  | [] => (ps, g, claims)
+  | KFind _ _ :: r => kclaims local ps g claims r
+  | KOp o :: r =>
+      match o with
+      | KAddKnown p a =>
+          kclaims local ps g (if a && in_peers ps p then p :: claims else claims) r
+      | KEstablished p _ pe => kclaims local (if pe then add_peer ps p else ps) g (p :: claims) r
+      | KDisconnect p => kclaims local (del_peer ps p) (del_peer g p) (del_peer claims p) r
+      | KTouch p => kclaims local (add_peer ps p) g claims r
+      | KUpdate l =>
+          kclaims local ps g
+                  (map fst (filter (fun pa : key * bool =>
+                                      snd pa && negb (key_eqb (fst pa) local) && in_peers ps (fst pa)) l)
+                   ++ claims) r
+      | KDialFailure _ _ | KEntry _ => kclaims local ps g claims r
+      end
+  end.
+
 Fixpoint ksteps_ok (lenient : bool) (keys : list key) (local : key) (k : nat) (t : table)
-         (steps : list (list kgop)) : parser bool :=
+         (ps g : list key) (steps : list (list kgop)) : parser bool :=
   match steps with
   | [] =>
       let* d := p_changed keys in
@@ -419,14 +544,19 @@ Fixpoint ksteps_ok (lenient : bool) (keys : list key) (local : key) (k : nat) (t
       let touched := flat_map kgop_keys ops in
       let disc := flat_map kgop_disc ops in
       let pure := negb (existsb kgop_writes ops) in
+      let t' := apply_changes t ch in
+      let '(ps', g1, claims) := kclaims local ps g [] ops in
+      let g' := fold_left (fun acc p => if stored_in local t' p then add_peer acc p else acc) claims g1 in
       if forallb (fun ib : nat * list node =>
                     (fst ib <? length t)%nat && binv_b local (fst ib) (snd ib) &&
                     kept_multi touched (nth (fst ib) t []) (snd ib) &&
                     conn_ok disc (nth (fst ib) t []) (snd ib)) ch &&
          (* a reply is judged against the table it was computed from *)
          (match reps with [] => true | _ => pure && match ch with [] => true | _ => false end end) &&
-         forallb (fun tr : key * list key => reply_ok lenient local t (fst tr) k (snd tr)) reps
-      then ksteps_ok lenient keys local k (apply_changes t ch) r
+         forallb (fun tr : key * list key => reply_ok lenient local t (fst tr) k (snd tr)) reps &&
+         (* ground truth: every connected peer is still stored after the step *)
+         forallb (stored_in local t') g'
+      then ksteps_ok lenient keys local k t' ps' g' r
       else pret false
   end.
 
@@ -435,7 +565,7 @@ Definition prop_ok_gen (lenient : bool) (case trace : list N) : bool :=
   | 0 :: _ =>
       match decode_kcase case, trace with
       | Some c, 1 :: body =>
-          match pall (ksteps_ok lenient (kc_keys c) (kc_local c) (kc_k c) (empty_table KBITS)
+          match pall (ksteps_ok lenient (kc_keys c) (kc_local c) (kc_k c) (empty_table KBITS) [] []
                                 (kc_steps c)) body with
           | Some b => b
           | None => false
@@ -446,7 +576,7 @@ Definition prop_ok_gen (lenient : bool) (case trace : list N) : bool :=
   | _ =>
       match decode_case case, trace with
       | Some c, 1 :: body =>
-          match pall (steps_ok lenient (c_keys c) (c_local c) (empty_table KBITS) (c_ops c)) body with
+          match pall (steps_ok lenient (c_keys c) (c_local c) (empty_table KBITS) [] (c_ops c)) body with
           | Some b => b
           | None => false
           end
